@@ -77,6 +77,39 @@ Lemma lookup_append_to : forall d n m x,
   else lookup d x.
 Proof. intros. apply lookup_dset. Qed.
 
+(* ------------------------------------------------------------------ list view of the vectors *)
+(* The proofs reason about the vectors as plain lists: [nth_N] is operator[] on the list of
+   elements, [shift_loop_l]/[shift_loop2_l] are the model's loops over that view; the
+   refinement lemmas [shift_loop_vrep]/[shift_loop2_vrep] below tie them to the model. *)
+Fixpoint nth_N (l : list str) (i : N) : option str :=
+  match l with
+  | [] => None
+  | x :: t => if i =? 0 then Some x else nth_N t (i - 1)
+  end.
+
+Fixpoint shift_loop_l (fuel : nat) (rlst : list str) (ii : N) (d : dir) : res :=
+  if ii =? 0 then Ok d else
+  match fuel with
+  | O => OutOfFuel
+  | S f =>
+    match nth_N rlst (ii - 1), nth_N rlst ii with
+    | Some a, Some b => shift_loop_l f rlst (ii - 1) (rename a b d)
+    | _, _ => OOB
+    end
+  end.
+
+Fixpoint shift_loop2_l (fuel : nat) (dblst idxlst : list str) (ii : N) (d : dir) : res :=
+  if ii =? 0 then Ok d else
+  match fuel with
+  | O => OutOfFuel
+  | S f =>
+    match nth_N dblst (ii - 1), nth_N dblst ii, nth_N idxlst (ii - 1), nth_N idxlst ii with
+    | Some a, Some b, Some a', Some b' =>
+        shift_loop2_l f dblst idxlst (ii - 1) (rename a' b' (rename a b d))
+    | _, _, _, _ => OOB
+    end
+  end.
+
 (* ------------------------------------------------------------------ instrumented vector *)
 Lemma nth_N_nth_error : forall l i, nth_N l i = nth_error l (N.to_nat i).
 Proof.
@@ -89,49 +122,124 @@ Qed.
 Lemma nth_N_of_nat : forall l k, nth_N l (N.of_nat k) = nth_error l k.
 Proof. intros. rewrite nth_N_nth_error, Nat2N.id. reflexivity. Qed.
 
+(* ------------------------------------------------------------------ the vector and its list view *)
+Lemma tget_leaf : forall p, tget Leaf p = None.
+Proof. destruct p; reflexivity. Qed.
+
+Lemma tget_tset_same : forall t p x, tget (tset t p x) p = Some x.
+Proof.
+  intros t p. revert t. induction p as [q IH|q IH|]; intros t x; destruct t; cbn [tset tget]; auto.
+Qed.
+
+Lemma tget_tset_other : forall t p q x, p <> q -> tget (tset t p x) q = tget t q.
+Proof.
+  intros t p. revert t. induction p as [p IH|p IH|]; intros t q x Hne; destruct t; destruct q;
+    cbn [tset tget]; try rewrite tget_leaf; try reflexivity;
+    try (rewrite IH by congruence; try rewrite tget_leaf; reflexivity); congruence.
+Qed.
+
+Definition vrep (v : vec) (l : list str) : Prop :=
+  vlen v = N.of_nat (length l) /\ forall i, vget v i = nth_N l i.
+
+Lemma vrep_empty : vrep vempty [].
+Proof. split; [reflexivity|]. intros i. unfold vget. cbn. destruct (i <? 0); reflexivity. Qed.
+
+Lemma nth_N_app : forall l x i,
+  nth_N (l ++ [x]) i = if i <? N.of_nat (length l) then nth_N l i
+                       else if i =? N.of_nat (length l) then Some x else None.
+Proof.
+  intros l x i. rewrite !nth_N_nth_error.
+  destruct (N.ltb_spec i (N.of_nat (length l))) as [Hlt|Hge].
+  - apply nth_error_app1. lia.
+  - rewrite nth_error_app2 by lia.
+    destruct (N.eqb_spec i (N.of_nat (length l))) as [->|Hne].
+    + rewrite Nat2N.id, Nat.sub_diag. reflexivity.
+    + destruct (N.to_nat i - length l)%nat as [|k] eqn:E; [lia|]. cbn. destruct k; reflexivity.
+Qed.
+
+Lemma vrep_push : forall v l x, vrep v l -> vrep (vpush v x) (l ++ [x]).
+Proof.
+  intros v l x [Hlen Hget]. split.
+  - cbn [vpush vlen]. rewrite app_length. cbn [length]. lia.
+  - intros i. rewrite nth_N_app. unfold vget in *. cbn [vpush vlen vtree]. rewrite Hlen.
+    destruct (N.ltb_spec i (N.of_nat (length l))) as [Hlt|Hge].
+    + replace (i <? N.of_nat (length l) + 1) with true by (symmetry; apply N.ltb_lt; lia).
+      rewrite tget_tset_other.
+      * specialize (Hget i). rewrite Hlen in Hget.
+        replace (i <? N.of_nat (length l)) with true in Hget by (symmetry; apply N.ltb_lt; lia).
+        exact Hget.
+      * intros E. apply (f_equal Pos.pred_N) in E. rewrite !N.pos_pred_succ in E. lia.
+    + destruct (N.eqb_spec i (N.of_nat (length l))) as [->|Hne].
+      * replace (N.of_nat (length l) <? N.of_nat (length l) + 1) with true by (symmetry; apply N.ltb_lt; lia).
+        apply tget_tset_same.
+      * replace (i <? N.of_nat (length l) + 1) with false by (symmetry; apply N.ltb_ge; lia).
+        reflexivity.
+Qed.
+
 (* ------------------------------------------------------------------ the push_back loop *)
 Lemma range1_length : forall n, length (range1 n) = N.to_nat n.
 Proof. intros. unfold range1. rewrite map_length, seq_length. reflexivity. Qed.
 
-Lemma names_loop_spec : forall mk rotnum fuel ii acc,
-  (N.to_nat (kept rotnum) - N.to_nat ii < fuel)%nat -> ii <= kept rotnum ->
-  names_loop fuel mk rotnum ii acc =
-  Some (rev acc ++ map mk (map N.of_nat (seq (S (N.to_nat ii)) (N.to_nat (kept rotnum) - N.to_nat ii))))%list.
+Lemma names_loop_spec : forall mk rotnum fuel ii acc lacc,
+  (N.to_nat (kept rotnum) - N.to_nat ii < fuel)%nat -> ii <= kept rotnum -> vrep acc lacc ->
+  exists v, names_loop fuel mk rotnum ii acc = Some v /\
+    vrep v (lacc ++ map mk (map N.of_nat (seq (S (N.to_nat ii)) (N.to_nat (kept rotnum) - N.to_nat ii)))).
 Proof.
-  intros mk rotnum. induction fuel as [|f IH]; intros ii acc Hf Hle; [lia|].
+  intros mk rotnum. induction fuel as [|f IH]; intros ii acc lacc Hf Hle Hrep; [lia|].
   cbn [names_loop].
   destruct ((ii <? rotnum) && (ii <? max_rotation)) eqn:E.
   - apply andb_true_iff in E. destruct E as [E1 E2].
     apply N.ltb_lt in E1. apply N.ltb_lt in E2.
     assert (Hlt : ii < kept rotnum) by (unfold kept, cap, max_rotation in *; lia).
-    rewrite IH by lia.
+    destruct (IH (ii + 1) (vpush acc (mk (ii + 1))) (lacc ++ [mk (ii + 1)])) as [v [Hv Hr]];
+      [lia|lia|apply vrep_push; exact Hrep|].
+    exists v. split; [exact Hv|].
     replace (N.to_nat (kept rotnum) - N.to_nat ii)%nat with (S (N.to_nat (kept rotnum) - N.to_nat (ii + 1)))%nat by lia.
-    cbn [seq map rev]. rewrite <- app_assoc. cbn [app].
+    cbn [seq map]. rewrite <- app_assoc in Hr. cbn [app] in Hr.
     replace (N.of_nat (S (N.to_nat ii))) with (ii + 1) by lia.
-    replace (S (N.to_nat (ii + 1))) with (S (S (N.to_nat ii))) by lia.
-    reflexivity.
+    replace (S (N.to_nat (ii + 1))) with (S (S (N.to_nat ii))) in Hr by lia.
+    exact Hr.
   - assert (Heq : ii = kept rotnum).
     { apply andb_false_iff in E. unfold kept, cap, max_rotation in *.
       destruct E as [E|E]; apply N.ltb_ge in E; lia. }
-    subst ii. rewrite Nat.sub_diag. cbn [seq map]. rewrite app_nil_r. reflexivity.
+    subst ii. exists acc. split; [reflexivity|].
+    rewrite Nat.sub_diag. cbn [seq map]. rewrite app_nil_r. exact Hrep.
 Qed.
 
 (* the vector after the loop: first, mk 1, ..., mk (min rotnum cap) *)
 Lemma build_names_spec : forall first mk rotnum,
-  build_names first mk rotnum = Some (first :: map mk (range1 (kept rotnum))).
+  exists v, build_names first mk rotnum = Some v /\ vrep v (first :: map mk (range1 (kept rotnum))).
 Proof.
-  intros. unfold build_names. rewrite names_loop_spec.
-  - cbn [rev app N.to_nat]. rewrite Nat.sub_0_r. reflexivity.
+  intros. unfold build_names.
+  destruct (names_loop_spec mk rotnum names_fuel 0 (vpush vempty first) [first]) as [v [Hv Hr]].
   - unfold names_fuel, kept, cap, max_rotation. lia.
   - lia.
+  - apply (vrep_push vempty [] first vrep_empty).
+  - exists v. split; [exact Hv|]. cbn [N.to_nat app] in Hr. rewrite Nat.sub_0_r in Hr. exact Hr.
 Qed.
 
-Lemma build_names_length : forall first mk rotnum l,
-  build_names first mk rotnum = Some l -> length l = S (N.to_nat (kept rotnum)).
+(* the model's loops are the list-view loops *)
+Lemma shift_loop_vrep : forall v l, vrep v l ->
+  forall fuel ii d, shift_loop fuel v ii d = shift_loop_l fuel l ii d.
 Proof.
-  intros first mk rotnum l H. rewrite build_names_spec in H. inversion H; subst.
-  cbn [length]. rewrite map_length, range1_length. reflexivity.
+  intros v l [_ Hget]. induction fuel as [|f IH]; intros ii d; cbn [shift_loop shift_loop_l].
+  - reflexivity.
+  - rewrite !Hget. destruct (ii =? 0); [reflexivity|].
+    destruct (nth_N l (ii - 1)); [|reflexivity]. destruct (nth_N l ii); [|reflexivity]. apply IH.
 Qed.
+
+Lemma shift_loop2_vrep : forall v1 l1 v2 l2, vrep v1 l1 -> vrep v2 l2 ->
+  forall fuel ii d, shift_loop2 fuel v1 v2 ii d = shift_loop2_l fuel l1 l2 ii d.
+Proof.
+  intros v1 l1 v2 l2 [_ H1] [_ H2]. induction fuel as [|f IH]; intros ii d; cbn [shift_loop2 shift_loop2_l].
+  - reflexivity.
+  - rewrite !H1, !H2. destruct (ii =? 0); [reflexivity|].
+    destruct (nth_N l1 (ii - 1)); [|reflexivity]. destruct (nth_N l1 ii); [|reflexivity].
+    destruct (nth_N l2 (ii - 1)); [|reflexivity]. destruct (nth_N l2 ii); [|reflexivity]. apply IH.
+Qed.
+
+Lemma vrep_fuel : forall v l, vrep v l -> N.to_nat (vlen v) = length l.
+Proof. intros v l [H _]. rewrite H. apply Nat2N.id. Qed.
 
 (* ------------------------------------------------------------------ the shifting loop *)
 (* what the loop  ii = k ... 1  does to a directory, given pairwise distinct names *)
@@ -172,9 +280,9 @@ Qed.
 
 Lemma shift_loop_step : forall f rlst k d a b,
   nth_error rlst k = Some a -> nth_error rlst (S k) = Some b ->
-  shift_loop (S f) rlst (N.of_nat (S k)) d = shift_loop f rlst (N.of_nat k) (rename a b d).
+  shift_loop_l (S f) rlst (N.of_nat (S k)) d = shift_loop_l f rlst (N.of_nat k) (rename a b d).
 Proof.
-  intros. cbn [shift_loop].
+  intros. cbn [shift_loop_l].
   destruct (N.eqb_spec (N.of_nat (S k)) 0) as [E|_]; [lia|].
   replace (N.of_nat (S k) - 1) with (N.of_nat k) by lia.
   rewrite !nth_N_of_nat, H, H0. reflexivity.
@@ -182,7 +290,7 @@ Qed.
 
 Lemma shift_loop_ok : forall rlst, NoDup rlst ->
   forall k fuel d, (k < length rlst)%nat -> (k <= fuel)%nat ->
-  exists d', shift_loop fuel rlst (N.of_nat k) d = Ok d' /\ shifted rlst k d d'.
+  exists d', shift_loop_l fuel rlst (N.of_nat k) d = Ok d' /\ shifted rlst k d d'.
 Proof.
   intros rlst Hnd. induction k as [|k IH]; intros fuel d Hlen Hfuel.
   - exists d. split.
@@ -252,20 +360,20 @@ Qed.
 (* a count at or beyond the vector's length: the very first iteration indexes outside it *)
 Lemma shift_loop_oob : forall rlst fuel ii d,
   (length rlst <= N.to_nat ii)%nat -> ii <> 0 -> fuel <> 0%nat ->
-  shift_loop fuel rlst ii d = OOB.
+  shift_loop_l fuel rlst ii d = OOB.
 Proof.
   intros rlst fuel ii d Hlen Hii Hf. destruct fuel as [|f]; [congruence|].
-  cbn [shift_loop]. destruct (N.eqb_spec ii 0); [congruence|].
+  cbn [shift_loop_l]. destruct (N.eqb_spec ii 0); [congruence|].
   assert (E : nth_N rlst ii = None) by (rewrite nth_N_nth_error; apply nth_error_None; exact Hlen).
   rewrite E. destruct (nth_N rlst (ii - 1)); reflexivity.
 Qed.
 
 Lemma shift_loop2_oob : forall dblst idxlst fuel ii d,
   (length dblst <= N.to_nat ii)%nat -> ii <> 0 -> fuel <> 0%nat ->
-  shift_loop2 fuel dblst idxlst ii d = OOB.
+  shift_loop2_l fuel dblst idxlst ii d = OOB.
 Proof.
   intros dblst idxlst fuel ii d Hlen Hii Hf. destruct fuel as [|f]; [congruence|].
-  cbn [shift_loop2]. destruct (N.eqb_spec ii 0); [congruence|].
+  cbn [shift_loop2_l]. destruct (N.eqb_spec ii 0); [congruence|].
   assert (E : nth_N dblst ii = None) by (rewrite nth_N_nth_error; apply nth_error_None; exact Hlen).
   rewrite E. destruct (nth_N dblst (ii - 1)); reflexivity.
 Qed.
@@ -299,7 +407,7 @@ Qed.
 
 Lemma shift_loop_deq : forall l k f d1 d2,
   (k < length l)%nat -> (k <= f)%nat -> deq d1 d2 ->
-  exists r1 r2, shift_loop f l (N.of_nat k) d1 = Ok r1 /\ shift_loop f l (N.of_nat k) d2 = Ok r2 /\ deq r1 r2.
+  exists r1 r2, shift_loop_l f l (N.of_nat k) d1 = Ok r1 /\ shift_loop_l f l (N.of_nat k) d2 = Ok r2 /\ deq r1 r2.
 Proof.
   intros l. induction k as [|k IH]; intros f d1 d2 Hlen Hf Hd.
   - exists d1, d2. repeat split; try (destruct f; reflexivity). exact Hd.
@@ -313,7 +421,7 @@ Qed.
 (* a rename over names foreign to the vector commutes with the whole loop *)
 Lemma shift_loop_comm : forall l a' b', ~ In a' l -> ~ In b' l ->
   forall k f d1 d2, (k < length l)%nat -> (k <= f)%nat -> deq d1 (rename a' b' d2) ->
-  exists r1 r2, shift_loop f l (N.of_nat k) d1 = Ok r1 /\ shift_loop f l (N.of_nat k) d2 = Ok r2
+  exists r1 r2, shift_loop_l f l (N.of_nat k) d1 = Ok r1 /\ shift_loop_l f l (N.of_nat k) d2 = Ok r2
                 /\ deq r1 (rename a' b' r2).
 Proof.
   intros l a' b' Ha' Hb'. induction k as [|k IH]; intros f d1 d2 Hlen Hf Hd.
@@ -332,10 +440,10 @@ Qed.
 Lemma shift_loop2_step : forall f dbl idl k d a b a' b',
   nth_error dbl k = Some a -> nth_error dbl (S k) = Some b ->
   nth_error idl k = Some a' -> nth_error idl (S k) = Some b' ->
-  shift_loop2 (S f) dbl idl (N.of_nat (S k)) d
-  = shift_loop2 f dbl idl (N.of_nat k) (rename a' b' (rename a b d)).
+  shift_loop2_l (S f) dbl idl (N.of_nat (S k)) d
+  = shift_loop2_l f dbl idl (N.of_nat k) (rename a' b' (rename a b d)).
 Proof.
-  intros. cbn [shift_loop2].
+  intros. cbn [shift_loop2_l].
   destruct (N.eqb_spec (N.of_nat (S k)) 0) as [E|_]; [lia|].
   replace (N.of_nat (S k) - 1) with (N.of_nat k) by lia.
   rewrite !nth_N_of_nat, H, H0, H1, H2. reflexivity.
@@ -345,9 +453,9 @@ Qed.
 Lemma shift_loop2_decomp : forall dbl idl,
   length dbl = length idl -> (forall x, In x dbl -> ~ In x idl) ->
   forall k f d0 d, (k < length dbl)%nat -> (k <= f)%nat -> deq d0 d ->
-  exists r r1 r2, shift_loop2 f dbl idl (N.of_nat k) d0 = Ok r /\
-                  shift_loop f dbl (N.of_nat k) d = Ok r1 /\
-                  shift_loop f idl (N.of_nat k) r1 = Ok r2 /\ deq r r2.
+  exists r r1 r2, shift_loop2_l f dbl idl (N.of_nat k) d0 = Ok r /\
+                  shift_loop_l f dbl (N.of_nat k) d = Ok r1 /\
+                  shift_loop_l f idl (N.of_nat k) r1 = Ok r2 /\ deq r r2.
 Proof.
   intros dbl idl Hlen Hdisj. induction k as [|k IH]; intros f d0 d Hk Hf Hd.
   - exists d0, d, d. repeat split; try (destruct f; reflexivity). exact Hd.
@@ -516,28 +624,38 @@ Qed.
 
 (* the vectors the code builds are the families 0 .. min(rotnum,cap) *)
 Lemma log_names : forall name compress rotnum,
-  build_names name (log_gen_name name compress) rotnum
-  = Some (map (gen_log name compress) (range0 (kept rotnum))).
+  exists v, build_names name (log_gen_name name compress) rotnum = Some v /\
+            vrep v (map (gen_log name compress) (range0 (kept rotnum))).
 Proof.
-  intros. rewrite build_names_spec. unfold range0. cbn [map]. f_equal. f_equal.
+  intros. destruct (build_names_spec name (log_gen_name name compress) rotnum) as [v [Hv Hr]].
+  exists v. split; [exact Hv|]. unfold range0. cbn [map].
+  replace (map (gen_log name compress) (range1 (kept rotnum)))
+    with (map (log_gen_name name compress) (range1 (kept rotnum))); [exact Hr|].
   apply map_ext_in. intros k Hk. apply in_range1 in Hk.
   unfold gen_log, log_gen_name, s_dot, s_gz.
   destruct (N.eqb_spec k 0); [lia|reflexivity].
 Qed.
 
 Lemma db_names : forall name rotnum,
-  build_names name (db_gen_name name) rotnum = Some (map (gen_db name) (range0 (kept rotnum))).
+  exists v, build_names name (db_gen_name name) rotnum = Some v /\
+            vrep v (map (gen_db name) (range0 (kept rotnum))).
 Proof.
-  intros. rewrite build_names_spec. unfold range0. cbn [map]. f_equal. f_equal.
+  intros. destruct (build_names_spec name (db_gen_name name) rotnum) as [v [Hv Hr]].
+  exists v. split; [exact Hv|]. unfold range0. cbn [map].
+  replace (map (gen_db name) (range1 (kept rotnum)))
+    with (map (db_gen_name name) (range1 (kept rotnum))); [exact Hr|].
   apply map_ext_in. intros k Hk. apply in_range1 in Hk.
   unfold gen_db, db_gen_name, s_dot. destruct (N.eqb_spec k 0); [lia|reflexivity].
 Qed.
 
 Lemma idx_names : forall name rotnum,
-  build_names (name ++ s_idx)%list (idx_gen_name name) rotnum
-  = Some (map (gen_idx name) (range0 (kept rotnum))).
+  exists v, build_names (name ++ s_idx)%list (idx_gen_name name) rotnum = Some v /\
+            vrep v (map (gen_idx name) (range0 (kept rotnum))).
 Proof.
-  intros. rewrite build_names_spec. unfold range0. cbn [map]. f_equal. f_equal.
+  intros. destruct (build_names_spec (name ++ s_idx)%list (idx_gen_name name) rotnum) as [v [Hv Hr]].
+  exists v. split; [exact Hv|]. unfold range0. cbn [map].
+  replace (map (gen_idx name) (range1 (kept rotnum)))
+    with (map (idx_gen_name name) (range1 (kept rotnum))); [exact Hr|].
   apply map_ext_in. intros k Hk. apply in_range1 in Hk.
   unfold gen_idx, gen_db, idx_gen_name, db_gen_name, s_dot, s_idx.
   destruct (N.eqb_spec k 0); [lia|reflexivity].
